@@ -239,7 +239,7 @@ def gen_req(rng):
     return case
 
 
-FAULTS = ["panic", "norecip_model", "norecip_src", "oos", "loss", "dead_query", "invdl", "badq", "sched_err"]
+FAULTS = ["panic", "norecip_model", "norecip_src", "norecip_query", "oos", "loss", "dead_query", "invdl", "badq", "sched_err"]
 
 
 def gen_fault(rng, fault=None, tail=None):
@@ -250,7 +250,7 @@ def gen_fault(rng, fault=None, tail=None):
     m0 = {"cap": 4, "handlers": [[], [("pan", 7)], [("snd", 0, "in")], [("qry", 0, "in")]],
           "repliers": [([("qry", 0, "in")], 1), ([], 2)],
           "outs": [[("all", 0, ("m", 1, 0))]], "reqs": [[("all", 0, 0, 0, 0)]]}
-    place1 = {"norecip_model": 2, "norecip_src": 2, "loss": 1, "badq": 2}.get(fault, 0)
+    place1 = {"norecip_model": 2, "norecip_src": 2, "norecip_query": 2, "loss": 1, "badq": 2}.get(fault, 0)
     m1 = {"cap": 4, "place": place1, "handlers": [[]], "repliers": [([], 5)]}
     case = {"models": [m0, m1], "sinks": [], "mode": "multiset", "tags": {"fault", fault}, "t0": 0,
             "sources": [[("all", 0, ("m", 1, 0))], [("all", 0, ("m", 0, 0))]], "clock": []}
@@ -266,6 +266,10 @@ def gen_fault(rng, fault=None, tail=None):
         inj = [("pe", 0, 1, 3)] if rng.random() < 0.5 else [("se", ("a", now + 10), 0, 1, 3, None, None), ("st",)]
     elif fault == "norecip_model":
         inj = [("pe", 0, 2, 3)]
+    elif fault == "norecip_query":
+        # a query (single-connection requestor: Requestor or UniRequestor, the harness alternates) to a dropped mailbox
+        m0["reqs"] = [[(rng.choice(["all", "all", "even"]), rng.choice([0, 1]), 1, 0, rng.choice([0, 5]))]]
+        inj = [("pe", 0, 3, 4)] if rng.random() < 0.5 else [("se", ("a", now + 10), 0, 3, 4, None, None), ("st",)]
     elif fault == "norecip_src":
         inj = [("ps", 0, 3)] if rng.random() < 0.5 else [("ss", ("a", now + 10), 0, 3, None, None), ("st",)]
     elif fault == "oos":
